@@ -80,7 +80,7 @@ func runC16(c *Ctx) error {
 					// prefer inputs that fail or recover: they leave most behind in the object
 					for try := 0; try < 6; try++ {
 						cand := pool[inRng.Intn(len(pool))]
-						if m := j.LR.Parse(cand, model.ParseOpts{FailAt: -1}); !m.Accepted || m.Recoveries > 0 {
+						if m := j.LR.Parse(cand, model.ParseOpts{FailAt: -1}); !m.Accepted || m.ErrorShifts > 0 {
 							in = cand
 							break
 						}
@@ -111,7 +111,7 @@ func runC16(c *Ctx) error {
 			if m.Accepted || m.StepsExceeded {
 				continue
 			}
-			if strings.Contains(m.Log, "E(") || m.Recoveries > 0 {
+			if m.ErrorShifts > 0 {
 				if len(poison) < 8 {
 					poison = append(poison, in)
 				}
